@@ -6,6 +6,7 @@ import os
 
 from . import common
 from . import hevcgen as H
+from . import hevcmodel as M
 from . import hevcref as F
 from . import hevcrun as R
 
@@ -46,6 +47,23 @@ def run_extract(job):
         res = R.run_tool(a, env=env, cwd=d)
     out = {"job": job, "fail": None, "cmds": [res.cmdline()], "notes": {}}
     exp = job["expected"]
+    if job.get("model_ans") is not None:
+        m = M.parse_extract(job["model_ans"])
+        out["model_steps"] = 1
+        if m is None:
+            if res.rc == 0 or res.crashed():
+                out["model_fail"] = ("hevc.extract", "err (the command fails)", res.brief())
+        elif res.rc != 0:
+            out["model_fail"] = ("hevc.extract", "ok, %d RPUs" % len(m), res.brief())
+        else:
+            r = M.compare_list(m, out_p, check_sc=True)
+            if r is not None:
+                out["model_fail"] = ("hevc.extract", r[0], r[1])
+    if job.get("model_only"):
+        if res.crashed():
+            out["fail"] = ("no crash", res.brief())
+        out["class"] = "model-only"
+        return out
     if exp is None:
         if res.rc == 0 or res.crashed():
             out["fail"] = ("error exit (library cannot convert an RPU)", res.brief())
@@ -81,6 +99,18 @@ def run_inject(job):
         a.append("--no-add-aud")
     res = R.run_tool(a, env=env, cwd=d)
     out = {"job": job, "fail": None, "cmds": [res.cmdline()], "notes": {}, "class": "ok"}
+    if job.get("model_ans") is not None:
+        m, merr = M.parse_list(job["model_ans"])
+        out["model_steps"] = 1
+        if m is None:
+            if res.rc == 0 or res.crashed():
+                out["model_fail"] = ("hevc.inject", "err (the command fails)", res.brief())
+        elif res.rc != 0:
+            out["model_fail"] = ("hevc.inject", "ok, %d NAL units" % len(m), res.brief())
+        else:
+            r = M.compare_list(m, out_p, check_sc=job["check_sc"])
+            if r is not None:
+                out["model_fail"] = ("hevc.inject", r[0], r[1])
     if res.crashed():
         out["fail"] = ("no crash", res.brief())
         return out
@@ -107,6 +137,18 @@ def run_inject(job):
     env2 = {HOOK: str(c["chunk2"])} if c.get("chunk2") else {}
     res2 = R.run_tool(["extract-rpu", out_p, "-o", back], env=env2, cwd=d)
     out["cmds"].append(res2.cmdline())
+    if job.get("model_back") is not None and not out.get("model_fail"):
+        m = M.parse_extract(job["model_back"])
+        out["model_steps"] = out.get("model_steps", 0) + 1
+        if m is None:
+            if res2.rc == 0:
+                out["model_fail"] = ("hevc.extract (injected)", "err (the command fails)", res2.brief())
+        elif res2.rc != 0:
+            out["model_fail"] = ("hevc.extract (injected)", "ok, %d RPUs" % len(m), res2.brief())
+        else:
+            r = M.compare_list(m, back, check_sc=True)
+            if r is not None:
+                out["model_fail"] = ("hevc.extract (injected)", r[0], r[1])
     if res2.rc != 0:
         out["fail"] = ("extract-rpu of the injected stream succeeds", res2.brief())
         return out
@@ -195,7 +237,7 @@ def run(ctx):
             key = F.rpu_key(c.get("mode"))
             conv.ensure([(key, n.data) for n in st.nals() if n.type == H.UNSPEC62])
             exp = F.ref_extract(st, conv, key)
-            ejobs.append({"cfg": c, "sid": sid, "expected": exp, "order": st.display_order(),
+            ejobs.append({"cfg": c, "sid": sid, "expected": exp, "order": st.display_order(), "mline": M.extract_line(st, conv, key),
                           "decode_order_payloads": [(62, x[2:]) for x in st.rpus_in_decode_order()]})
 
     for i in range(n_ext):
@@ -220,6 +262,22 @@ def run(ctx):
                               params="irap", pad=(0, 3), eos="none")
         stream_stats(st, 8)
         add_extract(r, st, 8, len(streams), 3)
+
+    # frames without an RPU (outside the property's quantifier; model correspondence only): the tool matches the k-th RPU with
+    # the frame decoded k-th, the model says so
+    for i in range(12 if quick else 100):
+        r = rng.fork("gap%d" % i)
+        nfr = r.choice([3, 6, 10])
+        st, base = new_stream(r, nfr, 8, r.shuffle(uni_small if len(uni_small) >= nfr else small)[:nfr], el="none")
+        for k in set(r.below(nfr) for _ in range(1 + r.below(2))):
+            st.aus[k].nals = [n for n in st.aus[k].nals if n.role != "rpu"]
+        if st.size() > REAL_CHUNK - 3000:
+            continue
+        data = st.render()
+        streams.append((st, data))
+        c = {"chunk": r.choice([257, 4096, None]), "stdin": False, "iflag": False}
+        ejobs.append({"cfg": c, "sid": len(streams) - 1, "expected": [], "order": st.display_order(), "model_only": True,
+                      "mline": M.extract_line(st, conv, None), "decode_order_payloads": []})
 
     # ---------------- inject
     for i in range(n_inj):
@@ -269,6 +327,7 @@ def run(ctx):
         sid = len(streams)
         streams.append((st, data))
         ijobs.append({"cfg": c, "sid": sid, "rpus": fresh, "expected": exp, "expected_back": back, "may_fail": may_fail,
+                      "mline": M.inject_line(st, fresh, no_add_aud=c["no_add_aud"], start_code=c["start_code"]), "pres": pres,
                       "check_sc": True, "has_rpu": has_rpu, "nfr": nfr, "n_list": n_list})
 
     with R.Work("C07") as work:
@@ -279,6 +338,19 @@ def run(ctx):
             j["work"] = work
             j["input"] = os.path.join(work.dir, "s%d.hevc" % j["sid"])
             j["data"] = streams[j["sid"]][1]
+        n_model = M.attach(ejobs) + M.attach(ijobs)
+        for j in ijobs:
+            # extract-rpu of what the model says inject-rpu writes; only the labels of the RPUs matter there
+            # (k-th RPU = frame k, one RPU per frame)
+            m, _ = M.parse_list(j["model_ans"])
+            if m is not None:
+                items, k = [], 0
+                for t, d, _ in m:
+                    items.append((t, d, k))
+                    k += 1 if t == H.UNSPEC62 else 0
+                j["mline_back"] = "hevc.extract - %d %s - %s" % (j["nfr"], ",".join(str(x) for x in j["pres"]) or "-", M.items_str(items))
+        n_model += M.attach(ijobs, "mline_back", "model_back")
+        ctx.count("cases through the Lean model (hevc.extract / hevc.inject)", n_model)
         res_e = R.pmap(run_extract, ejobs)
         res_i = R.pmap(run_inject, ijobs)
         for kind, results in (("extract", res_e), ("inject", res_i)):
@@ -307,6 +379,18 @@ def run(ctx):
                 if k % 131 == 0:
                     ctx.sample("stream#%d (%d frames, display order %s..): %s -> %s" % (
                         j["sid"], len(st.aus), st.display_order()[:12], " && ".join(x.replace(work.dir, "$W") for x in o["cmds"]), o.get("class")))
+                ctx.count("model steps compared with the CLI", o.get("model_steps", 0))
+                if o.get("model_fail"):
+                    mop, mm, mi = o["model_fail"]
+                    files = {"input.hevc": data}
+                    if kind == "inject":
+                        files["in_rpu.bin"] = H.rpu_file_bytes(j["rpus"])
+                    d = R.save_replay(ctx, "model-%s-s%d" % (kind, j["sid"]), files,
+                                      {"commands": [x.replace(work.dir, ".").replace("./s%d.hevc" % j["sid"], "input.hevc") for x in o["cmds"]],
+                                       "config": {x: y for x, y in c.items() if x != "pieces"}, "model_op": mop, "model": mm,
+                                       "implementation": mi, "display_order_by_generator": st.display_order(), "structure": H.describe(st, 80)})
+                    ctx.disagree(mop + " " + name, "%s (seed %d, %d frames): %s" % (d or "stream#%d" % j["sid"], ctx.seed, len(st.aus),
+                                 " && ".join(x.replace(work.dir, "$W") for x in o["cmds"])), mm, mi)
                 if o["fail"]:
                     files = {"input.hevc": data}
                     if kind == "inject":
